@@ -20,14 +20,42 @@ def make_settings(n, shrink=False):
     )
 
 
-def drive(strategy, body, n, seed_value):
-    """Run body(case) on n generated cases.  body must not raise on a violation (it records)."""
+TIMEOUTS = [0]  # cases abandoned by the per-case watchdog (inconclusive, never a violation)
+
+
+class CaseTimeout(BaseException):
+    pass
+
+
+def _alarm(signum, frame):
+    raise CaseTimeout()
+
+
+def drive(strategy, body, n, seed_value, case_timeout=None):
+    """Run body(case) on n generated cases.  body must not raise on a violation (it records).
+    A per-case watchdog (SIGALRM, main thread of the worker) abandons a case that hangs: counted, inconclusive."""
+    import os
+    import signal
+    import threading
+
+    limit = int(case_timeout or os.environ.get("VERIF_CASE_TIMEOUT", "120"))
+    use_alarm = threading.current_thread() is threading.main_thread() and hasattr(signal, "SIGALRM")
+    if use_alarm:
+        signal.signal(signal.SIGALRM, _alarm)
 
     @seed(seed_value)
     @make_settings(n)
     @given(strategy)
     def _t(case):
-        body(case)
+        if use_alarm:
+            signal.alarm(limit)
+        try:
+            body(case)
+        except CaseTimeout:
+            TIMEOUTS[0] += 1
+        finally:
+            if use_alarm:
+                signal.alarm(0)
 
     _t()
 
